@@ -6,6 +6,8 @@ use crate::gen::{self, Case, Kv};
 use crate::json::J;
 use crate::rng::Rng;
 use fst::raw::{Builder, Fst, OpBuilder};
+#[allow(unused_imports)]
+use fst::Streamer as _;
 use fst::{set, Set, SetBuilder, Streamer};
 use std::io::{BufWriter, Write};
 
@@ -232,6 +234,66 @@ pub fn run(ctx: &Ctx) -> i32 {
         }
     });
     let mut ev = ev;
+    // (a) rejected inserts are not part of the accepted sequence: a builder that refused calls in between (duplicates
+    //     with smaller/equal/larger values, out-of-order keys) must emit the same bytes as a clean build
+    // (b) the number of builders alive in the process is not part of the input either
+    {
+        let mut rng = Rng::new(ctx.seed, 0x15_4e1);
+        let idle: Vec<Builder<Vec<u8>>> = (0..40).map(|_| Builder::memory()).collect();
+        for i in 0..ctx.tier.pick(300, 3000) {
+            let alpha = gen::alphabet(&mut rng);
+            let nk = 1 + rng.usize(if i % 10 == 0 { 3000 } else { 60 });
+            let keys = gen::random_keys(&mut rng, nk, &alpha, 5);
+            let kv = gen::assign(keys, [5usize, 2, 4, 6, 3][i % 5], &mut rng);
+            let clean = build::build(Front::RawMemoryInsert, &kv).unwrap_or_default();
+            let r = guard(|| {
+                let mut b = fst::MapBuilder::memory();
+                for (j, (k, v)) in kv.iter().enumerate() {
+                    b.insert(k, *v).map_err(|e| e.to_string())?;
+                    // now offer things that must be refused
+                    match (i + j) % 5 {
+                        0 => {
+                            let _ = b.insert(k, v / 2);
+                        }
+                        1 => {
+                            let _ = b.insert(k, v.wrapping_add(1));
+                        }
+                        2 if j > 0 => {
+                            let _ = b.insert(&kv[j - 1].0, 1);
+                        }
+                        3 => {
+                            let _ = b.insert(k, 0);
+                            let _ = b.insert(k, *v);
+                        }
+                        _ => {}
+                    }
+                }
+                b.into_inner().map_err(|e| e.to_string())
+            });
+            ev.eval(Some(crate::rng::fnv_u64(0x15_4e1, i as u64)));
+            ev.count("sequences-with-rejected-calls");
+            match r {
+                Ok(Ok(b)) if b == clean => {}
+                Ok(Ok(b)) => {
+                    let content_same = Fst::new(&b[..]).map(|f| f.stream().into_byte_vec() == kv).unwrap_or(false);
+                    ev.violate("bytes-differ", format!("a builder that refused duplicate/out-of-order calls in between produced {} bytes, a clean build of the accepted sequence {} bytes (content equal: {}; 40 idle builders alive)", b.len(), clean.len(), content_same), J::A(kv.iter().take(10).map(|(k, v)| J::A(vec![J::bytes(k), J::U(*v)])).collect()));
+                }
+                Ok(Err(e)) => ev.violate("build-error", format!("accepted insert failed after rejected calls: {}", e), J::Null),
+                Err(p) => ev.violate("build-panic", format!("builder panicked around rejected calls: {}", p), J::Null),
+            }
+        }
+        // the cross-process sequences once more, now with 40 idle builders alive
+        let crowded = xproc_digests(ctx.seed);
+        ev.eval(Some(0x15_c0d));
+        ev.count("builds-with-40-idle-builders-alive");
+        let here0 = {
+            drop(idle);
+            xproc_digests(ctx.seed)
+        };
+        if crowded.iter().map(|x| (x.0, x.1)).collect::<Vec<_>>() != here0.iter().map(|x| (x.0, x.1)).collect::<Vec<_>>() {
+            ev.violate("bytes-differ", "the same sequences give different bytes while 40 other (idle) builders are alive in the process".into(), J::Null);
+        }
+    }
     // concurrent threads: the same sequences built simultaneously in 16 threads (incl. tiny geometries with evictions)
     let here = xproc_digests(ctx.seed);
     let evict_cases = here.iter().filter(|d| d.2 > 0).count();
@@ -279,9 +341,9 @@ pub fn run(ctx: &Ctx) -> i32 {
         ev,
         Spec {
             level: "exploration",
-            rule: "one evaluation = one build of a key/value sequence through one API path compared byte-for-byte with the raw Builder::memory()+insert build of the same sequence; paths: 9 map front ends (raw memory/new/extend_iter/extend_stream/from_iter_map, MapBuilder insert/extend_iter/extend_stream, Map::from_iter), 5 set front ends where values are zero (raw add, SetBuilder insert/extend_iter/extend_stream, Set::from_iter), the hook-built default geometry, union of 2..5 partial FSTs streamed into a builder (three ways of splitting), set union -> SetBuilder::extend_stream, BufWriter/File/short-writing sinks, repeated builds; the 44 cross-process sequences (random maps + word lists, incl. tiny cache geometries where evictions occur) are additionally built in 16 concurrent threads and in 2 child processes and compared by 128-bit digest; non-trivial = every path; distinct = (sequence, path)",
+            rule: "one evaluation = one build of a key/value sequence through one API path compared byte-for-byte with the raw Builder::memory()+insert build of the same sequence; paths: 9 map front ends (raw memory/new/extend_iter/extend_stream/from_iter_map, MapBuilder insert/extend_iter/extend_stream, Map::from_iter), 5 set front ends where values are zero (raw add, SetBuilder insert/extend_iter/extend_stream, Set::from_iter), the hook-built default geometry, union of 2..5 partial FSTs streamed into a builder (three ways of splitting), set union -> SetBuilder::extend_stream, BufWriter/File/short-writing sinks, repeated builds; builders that refused duplicate/out-of-order calls in between vs a clean build of the accepted sequence; builds while 40 idle builders are alive; the 44 cross-process sequences (random maps + word lists, incl. tiny cache geometries where evictions occur) are additionally built in 16 concurrent threads and in 2 child processes and compared by 128-bit digest; non-trivial = every path; distinct = (sequence, path)",
             assumptions: vec!["different cache geometries may legitimately give different bytes; determinism is judged per geometry".into()],
-            floors: vec![("paths-compared", 10_000), ("concurrent-thread-runs", 16), ("child-process-runs", 2)],
+            floors: vec![("paths-compared", 10_000), ("concurrent-thread-runs", 16), ("child-process-runs", 2), ("sequences-with-rejected-calls", 100)],
             exhaustive: Some(false),
         },
     )
